@@ -21,7 +21,7 @@ ASSUMPTIONS = ["liveness is restated as bounded progress; a watchdog timeout wit
 FLOORS = {"timer_evaluations": {"quick": 1500, "thorough": 30000}, "requests_honoured": {"quick": 1200, "thorough": 25000},
           "stops_checked": {"quick": 40, "thorough": 800}, "stops_while_waiting": {"quick": 15, "thorough": 300},
           "due_alarms": {"quick": 30, "thorough": 500}, "lagging_runs": {"quick": 20, "thorough": 400},
-          "pushes_while_waiting_checked": {"quick": 300, "thorough": 5000}}
+          "pushes_while_waiting_checked": {"quick": 300, "thorough": 5000}, "idle_stops_checked": {"quick": 8, "thorough": 150}}
 
 
 def gen(rng, k, seed):
@@ -41,7 +41,11 @@ def gen(rng, k, seed):
         kv["stop"] = f"afterms:{rng.choice([0, 1, 3, 8, 25])}:{rng.randrange(0, 1000)}"
     else:
         kv["stop"] = "none"
-    if rng.random() < 0.4:
+    if rng.random() < 0.15:
+        # a long, mostly idle run stopped early: the only thing that can end it in time is the stop request itself
+        kv.update(timers=f"rel:{rng.choice([100, 900])}", end_ms=4000, stop=f"afterms:{rng.choice([5, 20, 60])}:{rng.randrange(0, 1000)}")
+        kv["idle_stop"] = 1
+    elif rng.random() < 0.4:
         kv["slice_us"] = rng.choice([100, 1000, 20000])
     if rng.random() < 0.5:
         ds = []
@@ -161,9 +165,14 @@ def check(sc, tr, rc):
         C["stops_before_run_entered"] = 1
     elif tr.stop:
         C["stops_checked"] = 1
+        C["idle_stops_checked"] = 1 if kv.get("idle_stop") else 0
         later = sorted({t[1] for t in T if t[3] > stop_ret})
         if len(later) > 1:
             V.append(f"{len(later)} cycles ({later[:4]}) began after request_stop() had returned")
+        lag_ms = (tr.run[1] - stop_ret) / 1e6
+        if lag_ms > 1500 and not later:
+            V.append(f"run() returned {lag_ms:.0f} ms after request_stop() had returned although no cycle was in progress (bounded "
+                     f"progress: 1500 ms): the stop request was missed by the waiting loop")
         waits = sorted((h[2], h[1]) for h in tr.hooks if h[1] in ("rt.wait.enter", "rt.wait.leave"))
         state = None
         for ts, ph in waits:
